@@ -23,10 +23,13 @@ fn space_for(tier: Tier) -> (Space, usize) {
     match tier {
         Tier::Quick => {
             s.ast("K", 3, 16).ast("CL", 3, 16).tok("T0", &gen::T_CORE, 2, 16).ast("NESTX", 3, 4);
+            // deeper nesting with single insertions only
+            s.ast_range("NESTX", 4, 5, 8, 1);
             (s, 2)
         }
         Tier::Thorough => {
             s.ast("K", 4, 16).ast("CL", 3, 16).ast("G", 4, 16).tok("T0", &gen::T_CORE, 3, 16).tok("T", &gen::T_FULL, 2, 16).ast("NESTX", 4, 4);
+            s.ast_range("NESTX", 5, 6, 8, 1);
             (s, 2)
         }
     }
@@ -76,6 +79,7 @@ impl Check for C14 {
         let (sp, k) = space_for(ctx.tier);
         let (seg, lo, hi) = sp.locate(chunk);
         let scope_name = space::seg_scope_name(seg);
+        let k = if seg.param > 0 { seg.param } else { k };
         space::for_each_text(seg, lo, hi, &mut |_i, text| {
             let chars: Vec<char> = text.chars().collect();
             let n = chars.len();
